@@ -305,7 +305,11 @@ func c08Judge(fullB, twice bool) func(sc *e1Scenario, h *hist.Hist, cps map[stri
 										continue
 									}
 									cfg := fmt.Sprintf("cache populated at %d, advanced by %s(%s) at %d and by %s(%s) at %d, log length %d", k, adv.mode, adv.ref, j, adv2.mode, adv2.ref, j2, n)
-									if !complete {
+									if c := startCause(p.ref, lvi); p.mode == "full" && c != "" {
+										col.Violation("C08:full-verification-from-the-cached-last-verified-entry-differs:"+c,
+											fmt.Sprintf("[%s] full(%s) with a %s (last verified entry #%d) = %s, without cache = %s", h.Describe(), p.ref, cfg, lvi, got, base[p]),
+											e1Replay{Scenario: sc.Name, Events: h.Events, Mode: p.mode, Ref: p.ref})
+									} else if !complete {
 										col.Violation("C08:verdict-differs-with-cache:index-missing-policy-or-attestation-entries-of-the-log",
 											fmt.Sprintf("[%s] %s(%s) with a %s = %s, without cache = %s", h.Describe(), p.mode, p.ref, cfg, got, base[p]),
 											e1Replay{Scenario: sc.Name, Events: h.Events, Mode: p.mode, Ref: p.ref})
@@ -334,7 +338,11 @@ func c08Judge(fullB, twice bool) func(sc *e1Scenario, h *hist.Hist, cps map[stri
 						got := c08Run(f, p.mode, p.ref, nil)
 						col.Inc("evaluations")
 						col.Inc("advanced_cache_verifications")
-						if !c08Same(got, base[p]) && !complete {
+						if c := startCause(p.ref, lvi); !c08Same(got, base[p]) && p.mode == "full" && c != "" {
+							col.Violation("C08:full-verification-from-the-cached-last-verified-entry-differs:"+c,
+								fmt.Sprintf("[%s] full(%s) with a cache populated at %d, advanced by %s(%s) at %d (last verified entry #%d), log length %d = %s, without cache = %s", h.Describe(), p.ref, k, adv.mode, adv.ref, j, lvi, n, got, base[p]),
+								e1Replay{Scenario: sc.Name, Events: h.Events, Mode: p.mode, Ref: p.ref})
+						} else if !c08Same(got, base[p]) && !complete {
 							col.Violation("C08:verdict-differs-with-cache:index-missing-policy-or-attestation-entries-of-the-log",
 								fmt.Sprintf("[%s] %s(%s) with a cache populated at %d, advanced by %s(%s) at %d, log length %d = %s, without cache = %s", h.Describe(), p.mode, p.ref, k, adv.mode, adv.ref, j, n, got, base[p]),
 								e1Replay{Scenario: sc.Name, Events: h.Events, Mode: p.mode, Ref: p.ref})
